@@ -65,6 +65,21 @@ def subharnesses(tier):
                 subs.append(('%s-mixedlimits-%s-%s' % (
                     topo, '_'.join('%s%d' % kv for kv in sorted(l1.items())),
                     g1.ptag(pl)), spec))
+    # a server that hosts (or hosted) instances leaves the tree or is replaced
+    # (Loader.remove_server / reload_server): every ancestor loses exactly what
+    # the server contributed
+    for topo in ('T1', 'T3'):
+        ns = len(g1.TOPOS[topo][1])
+        for ev in (['remove_server', 0], ['replace_server', 0, {}],
+                   ['remove_app_then_server', 0]):
+            for pl in ((0, 1, None), (0, 0, None), (0, None, None)):
+                apps = [{'place': j, 'aff': 'x',
+                         'limits': {'server': 2, 'rack': 2, 'cell': 2}}
+                        for j in pl]
+                spec = {'topo': topo, 'D': 1,
+                        'servers': [{} for _ in range(ns)],
+                        'apps': apps, 'event': ev}
+                subs.append(('%s-%s-%s' % (topo, ev[0], g1.ptag(pl)), spec))
     # the master's 'cell' event (real Loader.load_cell) with instances placed
     for topo, lim, pls in (
             ('T2', {'cell': 2}, g1.placements(3, 2, symmetric=True)),
@@ -118,5 +133,6 @@ META = {
         'Server.restore', 'Server.remove', 'Node.increment_affinity',
         'Node.decrement_affinity'],
     'reach_required': ['scheduled', 'eviction_put', 'restored_after_eviction',
-                       'event:reload_cell'],
+                       'event:reload_cell', 'event:remove_server',
+                       'event:replace_server'],
 }
